@@ -659,14 +659,20 @@ package xpath
 //@   conforms type iteratorFunc
 //@   captures node != nil
 //@ func (*booleanQuery).Select$1
-//@   props C15
+//@   props C15 C11
 //@   captures 0 <= i
+//@   ensures[in-order@C11] old(i) < len(list) ==> result == list[old(i)] && i == old(i) + 1
+//@   ensures[then-nil@C11] old(i) >= len(list) ==> result == nil && i == old(i)
 //@ func (*unionQuery).Select$1
-//@   props C15
+//@   props C15 C11
 //@   captures 0 <= i
+//@   ensures[in-order@C11] old(i) < len(list) ==> result == list[old(i)] && i == old(i) + 1
+//@   ensures[then-nil@C11] old(i) >= len(list) ==> result == nil && i == old(i)
 //@ func (*mergeQuery).Select$1
-//@   props C15
+//@   props C15 C11
 //@   captures 0 <= i
+//@   ensures[in-order@C11] old(i) < len(list) ==> result == list[old(i)] && i == old(i) + 1
+//@   ensures[then-nil@C11] old(i) >= len(list) ==> result == nil && i == old(i)
 //@ func (*filterQuery).Select
 //@   props C15 C13
 //@   theory stream for C13
@@ -785,6 +791,7 @@ package xpath
 //@ define keyHead(p) = "" + itoa_(len(nameval(p))) + ":" + nameval(p)
 //@ define nodeKey(p) = ite(kind(p) == 0, "", hkey(keyHead(p) + "-" + itoa_(sidx(p)), p))
 //@ instance keyStep(acc, q) = hkey(acc, q) == ite(isroot(q), acc, hkey(acc + "-" + itoa_(sidx(parent(q))), parent(q)))
+//@ instance hashkeyDef(p) = hashkey(p) == fnv64a("" + nodeKey(p))
 //@ define sibWalk(cur, start, d) = ite(kind(start) == 2 || isroot(start), cur == start && d == 1, parent(cur) == parent(start) && !isroot(cur) && kind(cur) != 2 && 1 <= idx(cur) && d + idx(cur) == 1 + idx(start))
 //@ func getHashCode
 //@   props C15 C11 C13
@@ -795,7 +802,9 @@ package xpath
 //@   uses tree-child tree-parent tree-depth tree-kinds
 //@   ensures[moves-own@C13] movesOnly(n)
 //@   loop * invariant[moves-own@C13] movesOnly(n)
-//@   ensures[key@C11] result == fnv64a("" + nodeKey(old(pos(n))))
+//@   apply hashkeyDef(old(pos(n)))
+//@   ensures[key@C11!!] result == fnv64a("" + nodeKey(old(pos(n))))
+//@   ensures[identity@C11] result == hashkey(old(pos(n)))
 //@   loop 0 invariant[head@C11] buf(sb) == keyHead(old(pos(n))) && sibWalk(pos(n), old(pos(n)), d) && kind(old(pos(n))) != 1 && kind(old(pos(n))) != 0
 //@   loop 3 invariant[head@C11] buf(sb) == keyHead(old(pos(n))) && sibWalk(pos(n), old(pos(n)), d) && kind(old(pos(n))) == 1
 //@   loop 1 apply keyStep(buf(sb), pos(n))
@@ -2058,12 +2067,17 @@ package xpath
 //@   assume[ownership] ref(u.Left) != ref(u.Right)
 //@   ensures[materialised@C13,C11] old(u.iterator) == nil ==> k(u.Left) == slen(ref(u.Left), epoch(u.Left)) && k(u.Right) == slen(ref(u.Right), epoch(u.Right))
 //@   loop 1 invariant[left-drained@C13,C11] k(u.Left) == slen(ref(u.Left), epoch(u.Left))
-//@   theory stream for C13
+//@   theory stream for C13 C11
 //@   uses one-document
 //@   loop * invariant[cursor@C13] cur(t) == old(cur(t))
 //@   loop 0 invariant[cursor-left@C13] pos(cur(t)) == old(pos(cur(t)))
 //@   loop 1 invariant[cursor-right@C13] pos(cur(t)) == old(pos(cur(t)))
 //@   loop * invariant[root@C13] pos(root) == old(pos(cur(t)))
+//@   loop 0 invariant[right-untouched@C11] k(u.Right) == old(k(u.Right))
+//@   owns-navigators list
+//@   loop 0 invariant[left-seen@C11] old(k(u.Left)) <= k(u.Left) && forall(j, Int, old(k(u.Left)) <= j && j < k(u.Left) ==> has(m, hashkey(spos(ref(u.Left), epoch(u.Left), j))))
+//@   loop 1 invariant[left-seen@C11] forall(j, Int, old(k(u.Left)) <= j && j < k(u.Left) ==> has(m, hashkey(spos(ref(u.Left), epoch(u.Left), j))))
+//@   loop 1 invariant[right-seen@C11] old(k(u.Right)) <= k(u.Right) && forall(j, Int, old(k(u.Right)) <= j && j < k(u.Right) ==> has(m, hashkey(spos(ref(u.Right), epoch(u.Right), j))))
 //@ func (*lastFuncQuery).Select
 //@   props C15 C13
 //@   theory stream for C13
